@@ -56,11 +56,17 @@ def assign_canonical_labels(m: nx.Graph) -> dict[int, int]:
     """
 
     m_igraph = iGraph.from_networkx(m)
-    old_labels = m_igraph.vs["_nx_name"]
     partitions = m_igraph.vs[PARTITION]
-    canonical_labels = m_igraph.canonical_permutation(color=partitions)
+    permutation = m_igraph.canonical_permutation(color=partitions)
+    # Apply the permutation with igraph itself and read the old labels back,
+    # instead of interpreting the permutation vector (its index/value
+    # convention changed between igraph 0.10 and 1.0).
+    canonical_form = m_igraph.permute_vertices(permutation)
 
-    return dict(zip(old_labels, canonical_labels))
+    return {
+        old_label: canonical_label
+        for canonical_label, old_label in enumerate(canonical_form.vs["_nx_name"])
+    }
 
 
 def canonicalize_molecule(m: nx.Graph) -> nx.Graph:
